@@ -160,13 +160,19 @@ func c08(run *ev.Run, tier string) {
 	tags := append([]string{""}, formats...)
 	type cell struct {
 		t, tag, f string
-		expand    bool // the entry opts into environment expansion of src/dst
+		expand    bool  // the entry opts into environment expansion of src/dst
+		umask     int64 // package-wide umask (0 = default); the ghost default mode is 0644 whatever it is
 	}
 	var cells []cell
 	for _, t := range types {
 		for _, tag := range tags {
 			for _, f := range formats {
-				cells = append(cells, cell{t, tag, f, false}, cell{t, tag, f, true})
+				cells = append(cells, cell{t, tag, f, false, 0}, cell{t, tag, f, true, 0})
+				if strings.HasPrefix(t, "ghost") || isConfigType(t) {
+					for _, um := range []int64{0o027, 0o077, 0o7022} {
+						cells = append(cells, cell{t, tag, f, false, um})
+					}
+				}
 			}
 		}
 	}
@@ -184,6 +190,7 @@ func c08(run *ev.Run, tier string) {
 		c := cells[i]
 		s := base()
 		e := &gen.Content{Type: c.t, Packager: c.tag, Dst: "/etc/typ/entry", Expand: c.expand}
+		s.Umask = c.umask
 		if c.t == "ghost:missing-src" {
 			// the run-time file a ghost stands for may be named as src; it need not
 			// exist on the build host
@@ -218,7 +225,7 @@ func c08(run *ev.Run, tier string) {
 		cs := mkCase(s)
 		relevant := (c.tag == "" || c.tag == c.f) && (c.f == "rpm" || !(c.t == "ghost" || c.t == "doc" || c.t == "licence" || c.t == "license" || c.t == "readme"))
 		special := isConfigType(c.t) || wantRpmFlags(c.t) != 0
-		run.Case(fmt.Sprintf("cell|%s|%s|%s|expand=%v", c.t, c.tag, c.f, c.expand), relevant && special)
+		run.Case(fmt.Sprintf("cell|%s|%s|%s|expand=%v|umask=%o", c.t, c.tag, c.f, c.expand, c.umask), relevant && special)
 		res := buildYAML(s.YAML(), c.f)
 		if res.Err != nil || res.Panic != "" {
 			run.Violate("C08/"+c.f+"/build-error", map[string]any{"cell": c, "type": c.t, "tag": c.tag, "error": fmt.Sprint(res.Err, ev.Short(res.Panic, 300))})
